@@ -485,6 +485,20 @@ C["C22"] = {
  "stubs": ST_STUBS, "trusted_base": SRV_TB,
 }
 
+# ---------------- C39 (WebSocket transport) ----------------
+WS_STUBS = ["gorilla/websocket: (*Conn).NextReader and (*Conn).WriteMessage are replaced (engine redirect table) by the Go stubs vStubWsNextReader / vStubWsWriteMessage in harness/listeners/c39.go: the peer is a scripted message list; each message reader returns at most the rest of the current frame per Read and io.EOF with n == 0 at the end of the message (the contract of gorilla's messageReader); after the last message NextReader reports a close error; the HTTP upgrade is not executed (native replay runs it for real on a loopback httptest server)",
+ "bufio.Reader over wsConn: engine model of fill/ReadByte/ReadFull with the real buffer size (up to 100 empty reads, error after the buffered bytes)"]
+C["C39"] = {
+ "pkgs": [".", "./listeners"],
+ "technique": "bounded symbolic execution of the real wsConn.Read / wsConn.Write over a scripted WebSocket peer with symbolic message bytes, for every message list, fragmentation and read-buffer sequence within the bound; then differential execution of the real connection handler on the same MQTT byte stream over a plain connection and through wsConn with solver-chosen cut points (symbolic payload, transcripts compared as SMT terms)",
+ "quick": {"harnesses": [H("VerifC39Read", pkg="./listeners", MSGS=2, LEN=2, FRAME=1), H("VerifC39Write", pkg="./listeners"), H("VerifC39Broker", MODE=0), H("VerifC39Broker", MODE=1), H("VerifC39Broker", MODE=2)], "budget_s": 300, "witnesses": 4, "perm_limit": 1,
+   "bounds": "wsConn.Read: 0..2 messages, each binary or text, 0..2 symbolic bytes, whole or in 1-byte frames; read buffers: two arbitrary sizes 0..3 then one arbitrary size 1..3 for all later reads, until the stream ends; wsConn.Write: 0..3 writes of 0..3 symbolic bytes; broker: CONNECT+SUBSCRIBE+PUBLISH(QoS 1, symbolic payload)+PINGREQ (protocol 4/5) cut at any byte into three messages (second of 0..3 bytes), or into equal messages of 1..3 bytes, or interrupted at any byte by a text message"},
+ "thorough": {"harnesses": [H("VerifC39Read", pkg="./listeners", MSGS=3, LEN=3, FRAME=2), H("VerifC39Write", pkg="./listeners", WRITES=4, LEN=4), H("VerifC39Broker", MODE=0), H("VerifC39Broker", MODE=1), H("VerifC39Broker", MODE=2)], "budget_s": 1800, "witnesses": 8, "perm_limit": 1,
+   "bounds": "as quick with 0..3 messages of 0..3 bytes in frames of 1 or 2 bytes, buffers up to 4 bytes, 0..4 writes of 0..4 bytes"},
+ "outside_bounds": ["the gorilla library itself (framing, masking, control frames, the HTTP upgrade): stubbed at NextReader/WriteMessage", "messages longer than the bufio buffer (2048 bytes)", "read errors in the middle of a message", "more than three cuts chosen independently"],
+ "stubs": SRV_STUBS + WS_STUBS, "trusted_base": SRV_TB,
+}
+
 def main():
     os.makedirs(os.path.join(root, "checks"), exist_ok=True)
     for cid, c in C.items():
